@@ -182,8 +182,8 @@ def build(x):
     nx.add_spec(NEXT_SPEC)
     nx.text = '#[verifier::exec_allows_no_decreases_clause]\n' + nx.text
     nx.insert_at_body_start('\n        let ghost mut rounds: nat = 0;')
-    nx.insert_after('self.iteration_index += 1;', '\n            proof { rounds = rounds + 1; }')
-    nx.insert_before(re.compile(r'return StreamElement::Item\(state\);'), 'proof { assert(Self::ran(old(self), self, rounds)); }\n                ')
+    nx.insert_before(re.compile(r'let result = self\.final_result\(\);'), 'proof { rounds = rounds + 1; }\n            ')
+    nx.insert_before(re.compile(r'return StreamElement::Item\(state\);'), 'proof { assert(Self::ran(old(self), self, rounds)); }   // #obl:leader.runs_at_most_the_remaining_rounds.at_return\n                ')
     nx.insert_after_stmt('let state_feedback = (', '''
             // the verdict broadcast to the body replicas is Continue iff the loop goes on, with the state they must use in the next round
             assert((state_feedback.0 is Continue) == (result is None) && state_feedback.1 == self.state->0);   // #obl:leader.feedback_is_verdict_and_current_state''')
